@@ -142,6 +142,11 @@ func pathStr(p treePath) string {
 	return sb.String()
 }
 
+// oddAnnotationKeys: characters whose lower-case form has another length in bytes (Kelvin sign, dotted capital I,
+// Ohm and Angstrom signs, capital sharp s) before and after the '/', valid or not once lower-cased.
+var oddAnnotationKeys = []string{"\u212a/", "\u212a\u212a/x", "\u0130\u0130/", "\u0130\u0130\u0130.example.com/a", "\u2126\u2126\u2126/ab", "\u212b\u212b/", "\u1e9e\u1e9e\u1e9e/n",
+	"x/\u212a", "\u212a", "K\u212ak.io/\u212a\u212a", "\u0130/\u0130"}
+
 func genC17(t *rapid.T) c17Doc {
 	s := gen.Spec(t, "s", gen.SpecOpts{MaxDevices: 3, Edit: gen.EditOpts{MaxPer: 2}})
 	var doc any = gen.ToTree(s)
@@ -196,7 +201,7 @@ func genC17(t *rapid.T) c17Doc {
 			if a == nil {
 				a = map[string]any{}
 			}
-			key := rapid.SampledFrom(append(append([]string{}, badAnnotationKeys...), "good.key/name", "Simple", "a.b-c_d")).Draw(t, l+"annKey")
+			key := rapid.SampledFrom(append(append(append([]string{}, badAnnotationKeys...), "good.key/name", "Simple", "a.b-c_d"), oddAnnotationKeys...)).Draw(t, l+"annKey")
 			a[key] = rapid.SampledFrom([]any{"v", "", json.Number("3"), nil, []any{"v"}}).Draw(t, l+"annVal")
 			target["annotations"] = a
 			c.Mutations = append(c.Mutations, "annotation key "+fmt.Sprintf("%q", key))
